@@ -386,9 +386,18 @@ func c19Run(c *fw.Ctx, i int) {
 	// publish(A) before publish(B) in one process
 	{
 		other, _ := c19Doc(fw.NewRand(fw.Mix(c.Seed, uint64(i), 77)), false)
-		publish(other, allGroups(html.LivingVisibilityShow), 1, 0)
-		s, _ := publish(text, opts(), 1, 0)
+		// every second case the two publishes share ONE options value, as a
+		// program that publishes several files with the same settings would
+		shared := opts()
+		if i%2 == 0 {
+			publish(other, allGroups(html.LivingVisibilityShow), 1, 0)
+		} else {
+			publish(other, shared, 1, 0)
+			c.Count("after-other-document-with-the-same-options-value", 1)
+		}
+		s, _ := publish(text, shared, 1, 0)
 		c.Count("after-other-document", 1)
+
 		if s.Err == nil && c19Canon(s) != want {
 			why := "no-collision"
 			if len(base.Dups) > 0 || len(s.Dups) > 0 {
